@@ -788,6 +788,7 @@ class GrpcSim(Simulator):
     crash_rule = "C11.H2"
     rules = RULES
     recursion_headroom = 900
+    gc_every = 10
     generation_rule = ("Code is generated at check time by the working tree's plugin for a frozen corpus (3 own proto trees: "
                        "all four cardinalities, names needing re-casing, same method names in two services, same service "
                        "name in two packages, two files sharing one package, cross-package and well-known request/response types; 10 service cases of "
@@ -809,7 +810,7 @@ class GrpcSim(Simulator):
                    "Struct/Value/ListValue request/response types are not driven by the generic value generator",
                    "handlers consume the whole request stream before raising"]
     tiers = {
-        "quick": dict(runs=12000, chunk=100, wall_cap=300, det_sample=120),
+        "quick": dict(runs=12000, chunk=100, wall_cap=300, det_sample=int(__import__("os").environ.get("VERIF_DET_SAMPLE", "120"))),
         "thorough": dict(runs=400000, chunk=200, wall_cap=1500, det_sample=1000),
     }
     faults_enabled = True
